@@ -12,6 +12,11 @@ fn replay_if_asked(prop: &str, args: &Args) -> Option<i32> {
     let p = args.opt("--replay")?;
     let j = crate::report::read_replay(std::path::Path::new(&p));
     if j["case"]["engine"].as_str() == Some("bytes") {
+        if !crate::alloc_count::installed() {
+            // the allocation oracle needs the worker binary's counting allocator
+            let st = std::process::Command::new(crate::bytes::worker_bin()).args(["replay", &p]).status();
+            return Some(st.ok().and_then(|s| s.code()).unwrap_or(2));
+        }
         return Some(crate::bytes::replay_case(prop, &args.tier, j["case"]["hex"].as_str().unwrap_or(""), j["case"]["target"].as_str().unwrap_or("Load")));
     }
     None
@@ -24,7 +29,7 @@ pub fn run_c15(args: &Args) -> i32 {
     let rep = new_report("C15", args, "exploration");
     let complete = run_engine("C15", &args.tier, &rep);
     rep.finish(
-        "for each of 21 decoders (load with four option sets, load_unverified_heads, load_incremental into an empty and a populated document, rescue, Change::from_bytes (+decode +apply), Bundle, sync Message::decode (+receive +generate, also as the answer to a message of ours), State::decode, BloomFilter::try_from (+queries), Cursor from bytes and from strings (+resolution), ObjId from bytes (+reads), ActorId / ChangeHash from strings and bytes, import / import_obj): (a) EVERY byte string of length <= 2 (quick) / <= 3 (thorough), for chunked formats also MAGIC + every string <= 2 and a valid header with fixed-up checksum + every body <= 2 for each chunk type, for textual parsers every string of <= 3 (4) tokens over {s,e,-,@,0,1,g,é,😀,_root}; (b) every single-site mutation (overwrite with 5+4 values quick / all 255 thorough, deletion, 4 insertions, transposition, truncation) of every corpus encoding (documents B1/B2/(B3), save+incrementals, a document with a queued orphan, raw and DEFLATEd changes, a bundle, sync messages of two sessions incl. mutations inside the nested change chunks, a sync state, Bloom filters, cursors, object ids, the repository's fixtures and fuzz crashers) with chunk length and checksum recomputed; (c) every LEB128 field replaced by 13 extreme values; oracle: returns a value or an error - no panic, no abort / OOM kill / stack overflow (worker process death is attributed to the journaled case and must reproduce twice), no 20 s stall",
+        "for each of 21 decoders (load with four option sets, load_unverified_heads, load_incremental into an empty and a populated document, rescue, Change::from_bytes (+decode +apply), Bundle, sync Message::decode (+receive +generate, also as the answer to a message of ours), State::decode, BloomFilter::try_from (+queries), Cursor from bytes and from strings (+resolution), ObjId from bytes (+reads), ActorId / ChangeHash from strings and bytes, import / import_obj): (a) EVERY byte string of length <= 2 (quick) / <= 3 (thorough), for chunked formats also MAGIC + every string <= 2 and a valid header with fixed-up checksum + every body <= 2 for each chunk type, for textual parsers every string of <= 3 (4) tokens over {s,e,-,@,0,1,g,é,😀,_root}; (b) every single-site mutation (overwrite with 5+4 values quick / all 255 thorough, deletion, 4 insertions, transposition, truncation) of every corpus encoding (documents B1/B2/(B3), save+incrementals, a document with a queued orphan, raw and DEFLATEd changes, a bundle, sync messages of two sessions incl. mutations inside the nested change chunks, a sync state, Bloom filters, cursors, object ids, the repository's fixtures and fuzz crashers) with chunk length and checksum recomputed; (c) every LEB128 field replaced by 13 extreme values; oracle: returns a value or an error - no panic, no abort / OOM kill / stack overflow (worker process death is attributed to the journaled case and must reproduce twice), no case may run longer than 10 s (in-worker watchdog)",
         &["worker subprocesses with RLIMIT_AS 3 GiB", "distinct_nontrivial counts decoder classes exercised plus those that accepted at least one input"],
         complete,
     )
@@ -50,7 +55,7 @@ pub fn run_c17(args: &Args) -> i32 {
     let rep = new_report("C17", args, "exploration");
     let complete = run_engine("C17", &args.tier, &rep);
     rep.finish(
-        "all byte strings <= 2 per decoder (and the chunk-header families), every LEB128 field of every corpus encoding (<= 4 KiB) replaced by 13 extreme values with checksums recomputed, (thorough) plus single-site mutations: each case runs under a counting global allocator in a worker with RLIMIT_AS 3 GiB; per case: peak live heap <= 64 MiB + 1 KiB*n, total allocated <= 256 MiB + 64 KiB*n, time <= 2 s for an n-byte input; covers loading, message decode AND reply generation, Bloom queries with decoded parameters, cursor / id parsing; an allocation failure aborts the worker and is attributed to the journaled case",
+        "all byte strings <= 2 per decoder (and the chunk-header families), every LEB128 field of every corpus encoding (<= 4 KiB) replaced by 13 extreme values with checksums recomputed, (thorough) plus single-site mutations: each case runs under a counting global allocator in a worker with RLIMIT_AS 3 GiB; per case: peak live heap <= 64 MiB + 1 KiB*n, total allocated <= 256 MiB + 64 KiB*n, thread CPU time <= 750 ms for an n-byte input; covers loading, message decode AND reply generation, Bloom queries with decoded parameters, cursor / id parsing; an allocation failure aborts the worker and is attributed to the journaled case",
         &["thresholds are two orders of magnitude above what honest inputs of this size need"],
         complete,
     )
